@@ -70,6 +70,14 @@ def translate():
                      r"if typ\.L4Proto == consts\.L4ProtoStr_UDP && typ\.EffectiveUdpHealthDomain\(\) == UdpHealthDomainData && !d\.MustGetAlive\(typ\) \{\s*"
                      r"d\.informDialerGroupUpdate\(d\.markAvailableTraffic\(typ\)\)\s*\}\s*\}$", rat):
         notes.append("ReportAvailableTraffic: order of the streak reset and the data-UDP revival block changed (no early return may precede the revival check)")
+    chk = func_body(cc, r"func \(d \*Dialer\) check\(opts \*CheckOption, isResuscitation bool, cycle \*cycleResult\) \(ok bool, err error\) \{", "Dialer.check")
+    c["probe_max_attempts"] = int(_need(re.search(r"const maxAttempts = (\d+)", chk), "maxAttempts").group(1))
+    if not re.search(r"for i := 0; i < maxAttempts; i\+\+ \{\s*ctx, cancel := context\.WithTimeout\(d\.ctx, Timeout\)\s*start := time\.Now\(\)\s*ok, err = opts\.CheckFunc\(ctx, opts\.networkType\)\s*"
+                     r"latency := time\.Since\(start\)\s*checkedAt = time\.Now\(\)\s*cancel\(\)\s*if ok && err == nil \{\s*bestLatency = latency\s*break\s*\}\s*"
+                     r"if stderrors\.Is\(err, context\.Canceled\) \{\s*break\s*\}\s*if err == nil \{(?:\s*//[^\n]*\n)*\s*break\s*\}(?:\s*//[^\n]*\n)*\s*\}\s*if ok && err == nil \{", chk):
+        notes.append("Dialer.check: the shape of the attempt loop (every attempt runs CheckFunc; break on success / context.Canceled / (false,nil); verdict from the last attempt) changed")
+    if not re.search(r"\} else if err != nil && !stderrors\.Is\(err, context\.Canceled\) \{", chk):
+        notes.append("Dialer.check: the failure branch after the loop changed")
     c["max_consecutive_failures"] = int(_need(re.search(r"maxConsecutiveFailures\s*=\s*(\d+)", sc), "maxConsecutiveFailures").group(1))
     _need(re.search(r"entry\.count\+\+\s*entry\.lastUpdated = now\s*if entry\.count >= maxConsecutiveFailures \{", sc), "recordProxyFailure comparison")
     for name in ("IdxDnsTcp4", "IdxDnsTcp6", "IdxDnsUdp4", "IdxDnsUdp6", "IdxTcp4", "IdxTcp6", "IdxUdp4", "IdxUdp6"):
@@ -113,7 +121,7 @@ def translate():
     _need(re.search(r"sortingLatency: time\.Hour,", ad), "initial sorting latency time.Hour")
     lines = ["(* GENERATED by tools/c16.py from %s — do not edit. *)" % "component/outbound/dialer/{connectivity_check,dialer,sticky_cache,health_domain}.go, control/connectivity.go",
              "From Coq Require Import List NArith.", "From Dae Require Import C16_Spec.", "Import ListNotations.", "Open Scope N_scope.", ""]
-    for k in ("thr_default", "thr_udp_traffic", "thr_udp_probe", "thr_tcp_traffic", "max_consecutive_failures",
+    for k in ("probe_max_attempts", "thr_default", "thr_udp_traffic", "thr_udp_probe", "thr_tcp_traffic", "max_consecutive_failures",
               "IdxDnsTcp4", "IdxDnsTcp6", "IdxDnsUdp4", "IdxDnsUdp6", "IdxTcp4", "IdxTcp6", "IdxUdp4", "IdxUdp6"):
         lines.append("Definition %s : N := %d." % (k, c[k]))
     lines.append("Definition conn_slots_per_domain : N := %d." % c["outboundConnectivitySlotsPerDomain"])
@@ -387,6 +395,27 @@ def instance_family(full):
     return out
 
 
+def probe_loop_family():
+    """fixed family for the two-attempt probe driver: the real Dialer.check is run with a scripted dial function for each of
+    the six types; attempt outcomes x point at which teardown cancels the dialer's context (never, before attempt 1,
+    between the attempts, during the retry, after the loop).  UDP types are first brought to one failure short of
+    their threshold so that a wrongly counted probe shows in the alive flag, not only in the counter.  The cancelling
+    probe is the last event for that dialer; a probe of the other node follows."""
+    out = []
+    variants = [("err", "err", "none"), ("err", "ok", "none"), ("ok", "err", "none"), ("skip", "err", "none"), ("err", "skip", "none"),
+                ("err", "err", "between"), ("err", "ok", "between"), ("err", "err", "during2"), ("err", "err", "before"), ("ok", "ok", "before"),
+                ("err", "err", "after"), ("err", "ok", "after")]
+    for dom in range(6):
+        for a1, a2, c in variants:
+            pre = [{"op": "fail", "n": 0, "dom": dom, "kind": "check", "err": "refused", "alt": False}] * (2 if dom >= 2 else 0)
+            ops = pre + [{"op": "probe2", "n": 0, "dom": dom, "a1": a1, "a2": a2, "cancel": c, "alt": False},
+                         {"op": "probe2", "n": 1, "dom": dom, "a1": "err", "a2": "err", "cancel": "none", "alt": False}]
+            out.append({"dialers": [{"addr": "a1"}, {"addr": "a1"}],
+                        "groups": [{"policy": "min_last", "members": [0, 1], "offsets": [0, 0], "oid": 3 + dom}],
+                        "tolerance": 0, "ops": ops, "family": "probe_loop/%s/%s-%s/cancel_%s" % (DOMS[dom], a1, a2, c)})
+    return out
+
+
 # ------------------------------------------------------------------------------------------------
 # observation encodings (must mirror obs_full / obs_proj_* of coq/C16_Check.v)
 # ------------------------------------------------------------------------------------------------
@@ -471,6 +500,10 @@ def encode_step(case, st, bits):
     return full, (alive + lg + grp, alive + lg + grpn), (alive + grp, alive + grpn)
 
 
+ATT = {"ok": "AOk", "err": "AErr", "skip": "ASkip"}
+CAN = {"none": "CNone", "before": "CBefore1", "between": "CBetween", "during2": "CDuring2", "after": "CAfter"}
+
+
 def lat_term(st):
     return clist(["L %d %d %s %d%%Z" % (n, g, DOMS[dom], raw) for n, g, dom, has, raw in st["lats"] if has])
 
@@ -480,6 +513,8 @@ def ev_term(op, st):
     if o == "fail":
         return "(EFail %d %s %s %s %s)" % (op["n"], DOMS[op["dom"]], {"check": "KCheck", "trans": "KTrans", "traffic": "KTraffic", "forced": "KForced"}[op["kind"]],
                                            vlib.cbool(st["ign"]), lat_term(st))
+    if o == "probe2":
+        return "(probe_event %s %s %s %d %s %s)" % (ATT[op["a1"]], ATT[op["a2"]], CAN[op["cancel"]], op["n"], DOMS[op["dom"]], lat_term(st))
     if o == "probe_ok":
         return "(EProbeOk %d %s %s)" % (op["n"], DOMS[op["dom"]], lat_term(st))
     if o == "probe_skip":
@@ -513,7 +548,10 @@ def case_to_coq(case, res):
         full, pl, pn = encode_step(case, st, bits)
         proj, projn = pn if op["op"] == "reload" else pl
         post = clist([vlib.cbool(row[IDX[dom]][0]) for row in st["dialers"] for dom in range(6)]) if op["op"] == "reload" else "[]"
-        steps.append("(Build_obs_step %s %s %s %s %s %s)" % (ev_term(op, st), vlib.cbool(spec_ignorable(op)) if op["op"] == "fail" else "false",
+        ign_spec = vlib.cbool(spec_ignorable(op)) if op["op"] == "fail" else "false"
+        if op["op"] == "probe2":
+            ign_spec = "(verdict_is_ignore (spec_probe_verdict %s %s %s))" % (ATT[op["a1"]], ATT[op["a2"]], CAN[op["cancel"]])
+        steps.append("(Build_obs_step %s %s %s %s %s %s)" % (ev_term(op, st), ign_spec,
                                                              hex(hash_list(full)), hex(hash_list(proj)), hex(hash_list(projn)), post))
     keys = clist(["(%d, %s, %d)" % (g, DOMS[dom], k) for g, dom, k in res["keys"]])
     return "(Build_obs_case %s %d%%nat %d%%nat %s %s %s\n  %s)" % (cfg, len(case["dialers"]), len(ids), hex(hash_list(f0)), hex(hash_list(p0)), keys, clist(steps))
@@ -708,7 +746,7 @@ def main(argv):
                 if n.endswith(".json"):
                     corpus.append(json.load(open(os.path.join(cdir, n))))
         family = (reload_family(args.tier == "thorough") + cross_counter_family(args.tier == "thorough")
-                  + traffic_success_family(args.tier == "thorough") + instance_family(args.tier == "thorough"))
+                  + traffic_success_family(args.tier == "thorough") + instance_family(args.tier == "thorough") + probe_loop_family())
         corpus = corpus + family          # fixed inputs run first, like the corpus
         cases = corpus + [gen_case(rng, big=(args.tier == "thorough" and i % 3 == 0)) for i in range(n_cases)]
         all_err, all_res, sigs, fatal = {}, {}, [], None
@@ -809,7 +847,7 @@ def main(argv):
             out.violation("tie", what, "proof obligation or model correspondence no longer checks; no failing input found", no_failing_input=True)
         nontrivial = len(set(s for s in sigs if int(s[0]) > 0 and int(s[2]) > 0))
         cov.update(evaluations=n_eval, distinct_nontrivial=nontrivial, distinct_signatures=len(set(sigs)),
-                   rule="fixed instance family (one node with its own dialer instance in a group overriding the check options plus shared instances, instances differing in each type before a reload, both group orders) + fixed traffic-success family (death through every route incl. those leaving the traffic streak at 0, then successful traffic: data-UDP revives, other types do not) + fixed cross-counter family (death through probe / transactional / traffic streak, forced report or escalation, optionally a reload hand-over, then failures through every counter, ignorable errors, a success) + fixed reload family (2-3 groups x 2-4 nodes in all overlap shapes x all-dead / one-version-dead / one-alive per domain, then reload) + random histories over 1-4 nodes (shared / empty proxy addresses), 0-3 groups (3 latency policies, random, fixed; shared nodes; offsets; tolerance), "
+                   rule="fixed probe-loop family (real two-attempt Dialer.check with a scripted dial function: attempt outcomes x cancellation point, six types) + fixed instance family (one node with its own dialer instance in a group overriding the check options plus shared instances, instances differing in each type before a reload, both group orders) + fixed traffic-success family (death through every route incl. those leaving the traffic streak at 0, then successful traffic: data-UDP revives, other types do not) + fixed cross-counter family (death through probe / transactional / traffic streak, forced report or escalation, optionally a reload hand-over, then failures through every counter, ignorable errors, a success) + fixed reload family (2-3 groups x 2-4 nodes in all overlap shapes x all-dead / one-version-dead / one-alive per domain, then reload) + random histories over 1-4 nodes (shared / empty proxy addresses), 0-3 groups (3 latency policies, random, fixed; shared nodes; offsets; tolerance), "
                         "built from runs of probe / transactional / traffic failures of length threshold-2..threshold+2 with interruptions (success, ignorable error, skipped probe, other source), "
                         "forced reports, escalation bursts, suppression scopes and quiesce end, global reset, reloads; both spellings of each network type. "
                         "signature = (threshold deaths, escalations, revivals, suppressed failures, slot clears, reloads) saturated at 3; non-trivial = at least one threshold death and one revival",
